@@ -51,3 +51,38 @@ def c05_class(c, ir, mr, verdict):
     if s["win"].startswith("mss*") and (s["mss"] == "*" or int(s["mss"]) * int(s["win"][4:]) > 65535 or int(s["mss"]) < 100):
         return "KF-window-search"
     return None
+
+
+def scapy_ao_short(opt_area):
+    """Scapy 2.7 cannot dissect a TCP segment whose option walk (scapy.layers.inet.TCPOptionsField.m2i) reaches option kind 29
+    (TCP-AO) with length byte 3: TCPAOValue needs two bytes.  The TCP layer is then missing altogether and pyp0f answers
+    PacketError.  This mirrors Scapy's walk (not p0f's) to decide whether a given option area is in that class."""
+    x = bytes(opt_area)
+    while x:
+        k = x[0]
+        if k == 0:
+            return False
+        if k == 1:
+            x = x[1:]
+            continue
+        olen = x[1] if len(x) > 1 else 0
+        if olen < 2:
+            olen = 2
+        if k == 29 and len(x[2:olen]) == 1:
+            return True
+        x = x[olen:]
+    return False
+
+
+def spec_opt_area(spec):
+    return bytes.fromhex(spec.get("opts", ""))
+
+
+def raw_opt_area(raw, v):
+    """TCP option area of a raw datagram the way the model frames it (best effort; used for classification only)."""
+    try:
+        t = (raw[0] & 15) * 4 if v == 4 else 40
+        doff = (raw[t + 12] >> 4) * 4
+        return raw[t + 20:t + doff]
+    except Exception:
+        return b""
